@@ -142,6 +142,9 @@ def run(tier, replay):
     elif t.distinct < len(recs):
         raise vlib.ToolError("trace validation consumed too few records")
 
+    if ctx.violations:
+        # a broken tree: report what was found; the binding self-test presumes a clean run
+        return ctx.finish()
     # binding self-test
     xor = [x for x in vectors if x["k"] == "xor"]
     c1 = copy.deepcopy(next(x for x in vectors if x["k"] == "frame" and x["len"] == 126 and x["mask"] == 1))
